@@ -112,7 +112,9 @@ def outcome(text, wc, via='parse', between=None):
         real = pmod.parse
         try:
             # the same outcome function, with the helper object standing in for parse()
-            pmod.parse = lambda text, with_comments=False: calmjs.parse.es5(text, with_comments=with_comments)
+            # the optional argument is left out when it has its default value, as callers do
+            pmod.parse = lambda text, with_comments=False: (
+                calmjs.parse.es5(text, with_comments=True) if with_comments else calmjs.parse.es5(text))
             return _ons['outcome'](text, wc)
         finally:
             pmod.parse = real
